@@ -600,6 +600,40 @@ func dModesAgreeMore() string {
 		conf.IssueFormatter = saved
 		return fmt.Sprintf("String().Min(5) on \"ab\" under a language map whose min text is \"'{{value}}' is shorter than {{min}}\": Validate says %q, Parse says %q", z.Issues.SanitizeList(l1), z.Issues.SanitizeList(l2))
 	}
+	// an issue a custom test builds itself with ctx.Issue() refers to the value in both modes, wherever the node sits
+	conf.IssueFormatter = conf.NewDefaultFormatter(zconst.LangMap{zconst.TypeString: {"banned": "{{value}} is banned", zconst.IssueCodeFallback: "invalid"}})
+	banned := func() *z.StringSchema[string] {
+		return z.String().TestFunc(func(v any, ctx z.Ctx) bool { ctx.AddIssue(ctx.Issue().SetCode("banned")); return true })
+	}
+	type holder struct {
+		Direct string
+		List   []string
+		Ptr    *string
+	}
+	hs := func() *z.StructSchema {
+		return z.Struct(z.Schema{"direct": banned(), "list": z.Slice(banned()), "ptr": z.Ptr(banned())})
+	}
+	word := "abc"
+	hv := holder{Direct: "abc", List: []string{"abc", "xyz"}, Ptr: &word}
+	mvv := hs().Validate(&hv)
+	var hd holder
+	mpp := hs().Parse(map[string]any{"direct": "abc", "list": []any{"abc", "xyz"}, "ptr": "abc"}, &hd)
+	collect := func(m z.ZogIssueMap) string {
+		var o []string
+		for k, l := range m {
+			if k != "$first" {
+				for _, e := range l {
+					o = append(o, k+": "+e.Message)
+				}
+			}
+		}
+		sortStrings(o)
+		return strings.Join(o, "; ")
+	}
+	if collect(mvv) != collect(mpp) || !strings.Contains(collect(mvv), "list[1]: xyz is banned") {
+		conf.IssueFormatter = saved
+		return fmt.Sprintf("a custom test that files ctx.Issue() with code banned (template \"{{value}} is banned\") on a field, on list items and behind a pointer: Validate says [%s], Parse says [%s]", collect(mvv), collect(mpp))
+	}
 	conf.IssueFormatter = func(e *z.ZogIssue, ctx z.Ctx) { e.SetMessage("app:" + e.Code) }
 	ps := "ab"
 	pp := &ps
